@@ -82,21 +82,21 @@ def run(rep):
                 ss = [dict(s, want_plan=(i % 40 == 0)) for i, s in enumerate(ss)]
                 units.append({'db': db, 'stmts': ss})
         # asymmetric sizes: the planner builds LEFT/SEMI/ANTI joins on the right side only when left rows > 2 x right rows, and a
-        # runtime key filter prunes a Parquet probe side from a small build side: a 5-row side (every key value, duplicates) against
+        # runtime key filter prunes a Parquet probe side from a small build side: a 40-row side (every key value, duplicates; also as 40 one-row batches, above the 32-batch threshold of the batch-parallel probe) against
         # every 1-row and every 2-row side, in both orientations
         if nk == 1 and (lt == ['int64'] or not quick):
-            big = [lkeys[i % len(lkeys)] for i in range(5)]
+            big = [lkeys[i % len(lkeys)] for i in range(40 if True else 5)]
             smalls = list(multisets(rkeys, 2, 1))
             for sm in smalls:
                 for (lr, rr) in ((big, list(sm)), (list(sm), big)):
                     lrows = [list(k) + [i] for i, k in enumerate(lr)]
                     rrows = [list(k) + [i] for i, k in enumerate(rr)]
                     for lname, lkw, rkw in [('mem', {}, {}), ('parquet-right', {}, {'storage': 'parquet', 'rg': 1}), ('parquet-left', {'storage': 'parquet', 'rg': 2}, {}),
-                                            ('parquet-both', {'storage': 'parquet', 'rg': 2}, {'storage': 'parquet', 'rg': 1})]:
+                                            ('parquet-both', {'storage': 'parquet', 'rg': 2}, {'storage': 'parquet', 'rg': 1}), ('mem-one-row-batches', {'batches': [1] * len(lrows)}, {'batches': [1] * len(rrows)})]:
                         db = {'tables': [table('l', lcols, lrows, **lkw), table('r', rcols, rrows, **rkw)]}
                         units.append({'db': db, 'stmts': [dict(x, want_plan=(j % 15 == 0)) for j, x in enumerate(st)]})
     rep.rule = ('all pairs of tables with <= %d rows over key tuples (typings %s; values NULL + 2) and unique payloads; INNER/LEFT/RIGHT/FULL with residual ON predicates and WHERE placement, '
-                'CROSS, comma join, EXISTS / NOT EXISTS / IN, joins against an aggregate subquery; memory and Parquet on either side; plus a 5-row side against every 1- and 2-row side in both orientations and four storage layouts (build-side choice, runtime key filter); oracle SQLite 3.40; Execution errors are violations; '
+                'CROSS, comma join, EXISTS / NOT EXISTS / IN, joins against an aggregate subquery; memory and Parquet on either side; plus a 40-row side against every 1- and 2-row side in both orientations and four storage layouts (build-side choice, runtime key filter); oracle SQLite 3.40; Execution errors are violations; '
                 'non-trivial = reference answer non-empty' % (maxrows, typings))
     sqldiff.run(rep, units)
 
